@@ -29,6 +29,9 @@ type c19Exchange struct {
 	Delay time.Duration `json:"upstream_delay"`
 	Hang  bool          `json:"upstream_never_answers,omitempty"`
 	Body  int           `json:"body"`
+	// Upload: the request is a POST with a body and, when Expect is set, an "Expect: 100-continue" header.
+	Upload int  `json:"upload_bytes,omitempty"`
+	Expect bool `json:"expect_100_continue,omitempty"`
 }
 
 type c19Scenario struct {
@@ -68,6 +71,10 @@ func runC19(r *simcore.Run) {
 			ex.Delay = 3 * T
 		case 5:
 			ex.Hang = true
+		}
+		if g.Chance(30) {
+			ex.Upload = g.Range(1, 3000)
+			ex.Expect = g.Chance(60)
 		}
 		sc.Exchanges = append(sc.Exchanges, ex)
 	}
@@ -109,6 +116,13 @@ func runC19(r *simcore.Run) {
 		rq := h2Req{ID: fmt.Sprintf("x%d", i), Method: "GET", Path: "/" + ex.Route + "/r", Host: "fabio.sim",
 			Headers: []h2Header{{"Accept-Encoding", "identity"}},
 			Resp:    h2Resp{Status: 200, Body: g.Bytes(ex.Body), Delay: ex.Delay, Hang: ex.Hang, Headers: []h2Header{{"Content-Type", "application/octet-stream"}}}}
+		if ex.Upload > 0 {
+			rq.Method = "POST"
+			rq.Body = g.Bytes(ex.Upload)
+			if ex.Expect {
+				rq.Headers = append(rq.Headers, h2Header{"Expect", "100-continue"})
+			}
+		}
 		cl := &h2Client{Addr: fmt.Sprintf("192.0.2.%d:5000", 10+i), Reqs: []h2Req{rq}}
 		e.client(cl)
 		reqs = append(reqs, &cl.Reqs[0])
@@ -150,6 +164,9 @@ func runC19(r *simcore.Run) {
 				r.Fail("timeout", ex.Route+"/no-504", "upstream (%s) silent for longer than response-header timeout %s (delay %s hang %v): client got status=%d err=%v after %s", ex.Route, T, ex.Delay, ex.Hang, res.Status, res.Err, res.DoneAt.Sub(seen[0].At))
 			} else if el := res.DoneAt.Sub(seen[0].At); el > T {
 				r.Fail("timeout", ex.Route+"/late-504", "504 arrived %s after the upstream received the request, configured timeout %s", el, T)
+			} else if el := res.DoneAt.Sub(res.SentAt); el > T {
+				// the simulated network adds no latency, so the client's own wait is bounded by the timeout as well
+				r.Fail("timeout", ex.Route+"/client-held-longer", "the client was held for %s, configured response-header timeout %s (no simulated network latency)", el, T)
 			}
 		} else {
 			r.Probe("upstream_in_time")
